@@ -282,6 +282,16 @@ def main(argv):
         if bad:
             broken.append(("axioms", "; ".join(bad)))
         discharged = sum(1 for n in names if n in res)
+        if thorough:
+            # independent re-check of the compiled files and everything they depend on
+            r = subprocess.run("timeout 3000 coqchk -o -silent -Q . FV FV.Props.%s" % prop, shell=True, cwd=os.path.join(ROOT, "coq"),
+                               stdout=subprocess.PIPE, stderr=subprocess.STDOUT, text=True)
+            tail = r.stdout[-1500:]
+            coqchk_ok = (r.returncode == 0 and "Axioms: <none>" in tail and "type-in-type: <none>" in tail
+                         and "unsafe (co)fixpoints: <none>" in tail and "positivity is assumed: <none>" in tail)
+            digest["coqchk"] = "ok: axioms none, no type-in-type, no unsafe fixpoints, no assumed positivity" if coqchk_ok else "FAILED"
+            if not coqchk_ok:
+                broken.append(("coqchk", "coqchk -o on FV.Props.%s did not confirm an axiom-free development:\n%s" % (prop, tail)))
     obligations = len(names)
 
     # ---- 2. harness + oracle ----------------------------------------------
